@@ -312,6 +312,9 @@ class SolverSpy:
         self.calls = []
         self.fail_cbc = False
         self.fail_all = False
+        self.fail_job = None
+        self.job_calls = 0
+        self._doomed_thread = None
         self.cbc_calls = 0
         self.installed = False
 
@@ -322,6 +325,19 @@ class SolverSpy:
             solver = kwargs.get("solver", args[0] if args else None)
             spy.calls.append(str(solver))
             ctxmod.CTX.count("M-SOLVER")
+            if spy.fail_job is not None:
+                # exactly one alignment job (the k-th one to ask for CBC) finds no usable solver at all: CBC fails for it and
+                # so does the GLPK call that the same thread makes next
+                import threading as _th
+                me = _th.get_ident()
+                if str(solver) == "CBC":
+                    spy.job_calls += 1
+                    if spy.job_calls == spy.fail_job:
+                        spy._doomed_thread = me
+                        raise spy.cvxpy.SolverError("injected solver failure (vframework fault injection: one job, CBC)")
+                elif spy._doomed_thread == me:
+                    spy._doomed_thread = None
+                    raise spy.cvxpy.SolverError("injected solver failure (vframework fault injection: one job, GLPK)")
             if spy.fail_all:
                 # no solver is usable at all: whatever the library then does, it must not hand out a wrong answer
                 raise spy.cvxpy.SolverError("injected solver failure (vframework fault injection: every solver)")
